@@ -102,6 +102,9 @@ pub struct Profile {
     pub level: u32,
     /// every object has its own names: no attribute-uniqueness clashes can arise
     pub unique_names: bool,
+    /// every object is only ever created on its home replica (index mod replicas): no same-uuid
+    /// creates, hence no conflict entries at all
+    pub home_creates: bool,
 }
 
 fn pick_obj(rng: &mut Rng, v: &[Obj]) -> Obj {
@@ -152,8 +155,10 @@ pub fn gen_op(rng: &mut Rng, n_rep: usize, p: &Profile, created: &std::collectio
             0 => {
                 let obj = pick_obj(rng, &pop.all());
                 if p.long_gaps_when_replicated && created.contains(&obj) { continue; }
+                let r = if p.home_creates { obj.1 as usize % n_rep } else { r };
                 Op::Create { r, obj, name: nm(rng), bad_spn: false }
             }
+            1 if p.home_creates && n_rep > 1 => continue,
             1 => Op::CreatePair { r, a: pick_obj(rng, &pop.named()), an: nm(rng), b: pick_obj(rng, &pop.named()), bn: nm(rng) },
             2 => Op::Create { r, obj: pick_obj(rng, &pop.named()), name: nm(rng), bad_spn: true },
             3 => Op::Rename { r, obj: pick_obj(rng, &pop.named()), name: nm(rng) },
